@@ -260,7 +260,7 @@ fn histories(ctx: &Ctx, base: &[Vec<u8>]) {
     let inj = ctx.injecting("C20");
     let full: Vec<usize> = (0..N_OPS).collect();
     let cheap: Vec<usize> = vec![0, 1, 3, 4, 6, 7, 8, 11, 12, 16, 17];
-    let plans: Vec<(usize, &Vec<usize>)> = if ctx.quick() { vec![(1, &full), (2, &full), (3, &cheap)] } else { vec![(1, &full), (2, &full), (3, &full)] };
+    let plans: Vec<(usize, &Vec<usize>)> = if ctx.quick() { vec![(1, &full), (2, &full), (3, &cheap)] } else { vec![(1, &full), (2, &full), (3, &full), (4, &cheap)] };
     for (len, alpha) in plans {
         let sub = format!("histories.len{}", len);
         if !ctx.selected(&sub) {
